@@ -4,8 +4,11 @@ import json, os, subprocess, sys, time, hashlib, re
 VERIF = os.path.dirname(os.path.dirname(os.path.abspath(__file__)))
 REPO = os.environ.get("VERIF_REPO", "/repo")
 CACHE = os.path.join(VERIF, ".cache")
-EVID = os.path.join(VERIF, "evidence")
-REPLAYS = os.path.join(VERIF, "replays")
+# VERIF_RUN labels a side run (seeded-mutation tests against a copy of the repository given by VERIF_REPO):
+# its evidence, replays and scratch directories are kept apart from the registered checks' ones.
+RUN = os.environ.get("VERIF_RUN", "")
+EVID = os.path.join(VERIF, "evidence") if not RUN else os.path.join(CACHE, "sideruns", RUN, "evidence")
+REPLAYS = os.path.join(VERIF, "replays") if not RUN else os.path.join(CACHE, "sideruns", RUN, "replays")
 
 EXIT_OK, EXIT_VIOLATION, EXIT_INCONCLUSIVE = 0, 1, 2
 
